@@ -785,6 +785,9 @@ func gridnFunc(gridnFn func(float64, string)) builtinFunc {
 	return func(_ *scope, args []value) (value, error) {
 		unit := args[0].(*numVal)
 		color := args[1].(*stringVal)
+		if !(unit.V > 0) { // zero, negative or NaN spacing: the platform would draw lines forever
+			return nil, fmt.Errorf(`%w: the first argument ("unit") of the "gridn" function must be greater than 0, found %v`, ErrBadArguments, unit.V)
+		}
 		gridnFn(unit.V, color.V)
 		return nil, nil
 	}
